@@ -1020,6 +1020,8 @@ func run(c *vf.Ctx) {
 			var out, detail, in string
 			if kind == "signed-fields" {
 				out, detail, in = linkSigned(rng, i)
+			} else if kind == "paused-handshake" {
+				out, detail, in = linkPaused(rng, i)
 			} else {
 				out, detail, in = linkMid(rng, kind)
 			}
@@ -1077,6 +1079,31 @@ func run(c *vf.Ctx) {
 	for cl, n := range delayed {
 		if strings.HasPrefix(cl, "sealed/") && 2*n > perClass[cl] {
 			c.Broken("class %s: %d of %d inputs were refused by the replay protection and never reached the code the class is about", cl, n, perClass[cl])
+		}
+	}
+	paused := map[string]int{}
+	for _, o := range all {
+		if o.Kind == "paused-handshake" {
+			k := o.Outcome
+			if strings.Contains(o.Input, "removed 0 session") || !strings.Contains(o.Input, "removed") {
+				k += ", no session removed during the pause"
+			} else {
+				k += ", the router's session removed during the pause"
+			}
+			paused[k]++
+		}
+	}
+	c.Extra("paused_handshakes", paused)
+	c.Logf("R: paused handshakes: %v", paused)
+	if perClass["link-mid/paused-handshake"] > 0 {
+		hit := 0
+		for k, n := range paused {
+			if strings.Contains(k, "session removed during") {
+				hit += n
+			}
+		}
+		if hit == 0 {
+			c.Broken("class link-mid/paused-handshake: the session cleaner never removed a session during the pause")
 		}
 	}
 	c.Extra("outcomes", byOutcome)
